@@ -55,6 +55,20 @@ def build(cfg, values=None):
                 from compmech.sparse import finalize_symmetric_matrix
                 K = finalize_symmetric_matrix(raw).todict()
             else:
+                if cfg.get('after_redefinition'):
+                    # the panel was evaluated with another cone angle / radius before: kG0 must follow the CURRENT definition
+                    from ..panelsym import AngleTok
+                    cur_alpha, cur_r = getattr(p, 'alphadeg', None), getattr(p, 'r', None)
+                    if model == 'kpanel':
+                        p.alphadeg = AngleTok('deg', 'alpha_before')
+                    if model in ('cpanel', 'kpanel'):
+                        p.r = ctx.V('r_before')
+                    p.calc_k0(silent=True)
+                    p.calc_kM(silent=True)
+                    if model == 'kpanel':
+                        p.alphadeg = cur_alpha
+                    if model in ('cpanel', 'kpanel'):
+                        p.r = cur_r
                 K = p.calc_kG0(silent=True).todict()
             H = symmetric_completion(oracle_kG0(ctx, p, model, N[0], N[1], N[2], ylim=yl, s=s), shift=off)
         elif variant == 'tiling':
@@ -110,6 +124,32 @@ def build(cfg, values=None):
     return obs, assumptions, info
 
 
+def real_exception(cfg):
+    """the same call order on the compiled build with floats: does calc_kG0 raise?"""
+    if cfg['variant'] not in ('full', 'y1y2', 'offset', 'single'):
+        return None
+    from compmech.panel import Panel
+    model = {'plate': 'plate_clt_donnell_bardell', 'cpanel': 'cpanel_clt_donnell_bardell', 'kpanel': 'kpanel_clt_donnell_bardell',
+             'plate_w': 'plate_clt_donnell_bardell_w'}[cfg['model']]
+    p = Panel(a=2., b=1., stack=[0, 45], plyt=1e-3, laminaprop=(142.5e9, 8.7e9, 0.28, 5.1e9, 5.1e9, 5.1e9), m=cfg['m'] + 2, n=cfg['n'] + 2)
+    p.model = model
+    if cfg['model'] in ('cpanel', 'kpanel'):
+        p.r = 3.
+    if cfg['model'] == 'kpanel':
+        p.alphadeg = 10.
+    p.Nxx, p.Nyy, p.Nxy = -1., -2., 0.5
+    if cfg['variant'] == 'y1y2':
+        p.y1, p.y2 = 0.2, 0.7
+    try:
+        if cfg.get('after_redefinition'):
+            p.calc_k0(silent=True)
+            p.calc_kM(silent=True)
+        p.calc_kG0(silent=True)
+    except Exception as e:
+        return '%s: %s' % (type(e).__name__, e)
+    return None
+
+
 def configs(tier, seed):
     out = []
     quick = tier == 'quick'
@@ -120,6 +160,8 @@ def configs(tier, seed):
                 continue
             out.append({'model': model, 'm': m, 'n': n, 'variant': 'full', 'group': 'kG0:%s' % model})
         out.append({'model': model, 'm': 2, 'n': 2, 'variant': 'y1y2', 'group': 'kG0y1y2:%s' % model})
+        if model in ('cpanel', 'kpanel'):
+            out.append({'model': model, 'm': 2, 'n': 2, 'variant': 'full', 'after_redefinition': True, 'group': 'kG0-after-redefinition:%s' % model, 's': 1 if model == 'kpanel' else 2})
         out.append({'model': model, 'm': 2, 'n': 2, 'variant': 'offset', 'off': 2 + seed % 5, 'group': 'placement:%s' % model})
         for which in ('Nxx', 'Nyy', 'Nxy'):
             out.append({'model': model, 'm': 2, 'n': 2, 'variant': 'single', 'which': which, 'group': 'single-resultant:%s' % model})
